@@ -11,7 +11,7 @@ from .driver import VERIF, REPO, sh
 KIND = {
     'is_822_local': [('local822', [])], 'is_5321_local': [('local5321', [])], 'is_5322_local': [('local5322', [])],
     'is_6531_local': [('local6531', [])], 'utf8_decode_next': [('local6531', [])],
-    'is_ascii_domain': [('host', [])], 'is_ipv4': [('ipv4', [])], 'is_ipv6': [('ipv6', [])], 'is_ipv6_len': [('ipv6', [])],
+    'is_ascii_domain': [('host', [])], 'is_ipv4': [('ipv4', [])], 'is_ipv6': [('ipv6', [])],
     'is_ipaddr': [('email822', ['0'])],
     'is_special_domain_A': [('special', [])], 'is_special_domain_B': [('special', [])],
     'is_tld': [('tld', [])], 'tld_table': [('tld', [])],
